@@ -44,5 +44,14 @@ theorem resize_keeps_tabstops (s : Screen) (h : Inv s) (l c : Option Nat) :
   have k := C16.kept_resize s h l c
   exact ⟨k.tabstops, k.savepoints, k.mode, k.title⟩
 
+/-- RIS is idempotent: `ESC c ESC c` leaves exactly the state of `ESC c` (every field, dirty set and
+    saved-cursor stack included), for every state with at least one line -/
+theorem reset_idempotent (s : Screen) (hl : 1 ≤ s.lines) : reset (reset s) = reset s := by
+  have e := C15.reset_eq s hl
+  have c : (reset s).columns = s.columns := by rw [e]; rfl
+  have l : (reset s).lines = s.lines := by rw [e]; rfl
+  have sp : (reset s).savepoints = s.savepoints := by rw [e]; rfl
+  rw [C15.reset_eq (reset s) (by rw [l]; exact hl), c, l, sp, ← e]
+
 end Extra
 end Memterm
